@@ -221,6 +221,7 @@ pub fn run(tier: &str) -> i32 {
     let thorough = rep.thorough();
     let mut progs = struct_space(true, thorough, false, false);
     progs.extend(extra_space());
+    progs.extend(crate::c05::io_host_space());
     let reprs = [Repr::Rust, Repr::Glam, Repr::Nalgebra];
     let items: Vec<(usize, Repr)> = (0..progs.len()).flat_map(|i| reprs.iter().map(move |r| (i, *r))).collect();
     let res = par_map(&items, |(i, r)| {
